@@ -411,6 +411,12 @@ func (b *Builder) structHash(t *types.Struct) (ret []byte, pkg string) {
 		name := f.Name()
 		if f.Embedded() {
 			name = "-"
+			// The field name of an embedded field is the name written in the source
+			// (an alias name, byte, rune). It is part of type identity; it only needs
+			// to be hashed when it is not implied by the field type.
+			if f.Name() != embeddedTypeName(f.Type()) {
+				name = "-" + f.Name()
+			}
 		}
 		ft, _ := b.TypeName(f.Type())
 		if tag := t.Tag(i); tag != "" {
@@ -423,6 +429,23 @@ func (b *Builder) structHash(t *types.Struct) (ret []byte, pkg string) {
 	}
 	ret = h.Sum(b.buf[:0])
 	return
+}
+
+// embeddedTypeName returns the field name that embedding t implies when t is
+// written without an alias: the name of the named type or of the basic type.
+func embeddedTypeName(t types.Type) string {
+	if p, ok := types.Unalias(t).(*types.Pointer); ok {
+		t = p.Elem()
+	}
+	switch t := types.Unalias(t).(type) {
+	case *types.Named:
+		return t.Obj().Name()
+	case *types.Basic:
+		if k := t.Kind(); k > types.Invalid && int(k) < len(types.Typ) {
+			return types.Typ[k].Name()
+		}
+	}
+	return ""
 }
 
 func scopeIndex(scope, root *types.Scope, id string) (string, bool) {
